@@ -47,3 +47,13 @@ Theorem C13_live : forall (events : list (list job)) (sch1 sch2 : list nat) (p :
   exists k, length sch1 <= k /\ mark_at (history events (sch1 ++ sch2)) k (MStart j).
 Proof. exact live_from_init. Qed.
 Print Assumptions C13_live.
+
+(* The executable monitors that the harness runs on the histories of the REAL code (extracted to OCaml) decide
+   exactly the four clauses above, on any history whatsoever. *)
+Theorem C13_monitors :
+  (forall h pend, no_loss_b h pend = true <-> no_loss h pend)
+  /\ (forall h, dedup_b h = true <-> dedup h)
+  /\ (forall h, worker_b h = true <-> worker_ok h)
+  /\ (forall h wend, served_b h wend = true <-> served h wend).
+Proof. exact (conj no_loss_b_iff (conj dedup_b_iff (conj worker_b_iff served_b_iff))). Qed.
+Print Assumptions C13_monitors.
